@@ -110,6 +110,9 @@ Definition fbinop (op : string) (a b : gval) : res gval :=
       | None => Raise TypeError
       end
   | VArr _, _ => binop_val op a b
+  | VTup l, VInt k =>
+      (* list repetition: [v] * n *)
+      if seq_eqb op "*" then Ok (VTup (concat (repeat l (Z.to_nat k)))) else Raise TypeError
   | _, VArr r =>
       (* scalar op array *)
       match as_num a, arith op 0 0 with
